@@ -8,6 +8,7 @@ import (
 	"time"
 
 	"github.com/PelicanPlatform/classad/classad"
+	"github.com/bbockelm/cedar/verifhook"
 )
 
 // KeyInfo represents a cryptographic key with metadata
@@ -349,6 +350,7 @@ func GenerateSessionID(counter int) string {
 	}
 
 	pid := os.Getpid()
+	hostname, pid = verifhook.Ident(hostname, pid) // identity unless built with the verif tag
 	timestamp := time.Now().Unix()
 
 	return fmt.Sprintf("%s:%d:%d:%d", hostname, pid, timestamp, counter)
